@@ -118,6 +118,31 @@ func (s *gatedStore) Delete(key string) error {
 	return s.Storage.Delete(key)
 }
 
+// gatedStoreCAS: the handle keeps the capabilities of what it wraps — a store that offers storage.CASStore (memory,
+// redis and also hybrid, whose CompareAndSwap is a stub) must still offer it through the wrapper, or code that
+// type-asserts for it would silently take another path under test than in production.
+type gatedStoreCAS struct {
+	*gatedStore
+	cas storage.CASStore
+}
+
+func (s *gatedStoreCAS) SetNX(key string, v interface{}, ttl time.Duration) (bool, error) {
+	s.g.enter(*s.tid, "set", key)
+	return s.cas.SetNX(key, v, ttl)
+}
+func (s *gatedStoreCAS) CompareAndSwap(key string, o, n interface{}, ttl time.Duration) (bool, error) {
+	s.g.enter(*s.tid, "set", key)
+	return s.cas.CompareAndSwap(key, o, n, ttl)
+}
+
+func newGatedStore(st storage.Storage, g *gate, tid *int) storage.Storage {
+	gs := &gatedStore{Storage: st, g: g, tid: tid}
+	if c, ok := st.(storage.CASStore); ok {
+		return &gatedStoreCAS{gatedStore: gs, cas: c}
+	}
+	return gs
+}
+
 // racy reports whether the executed trace has a check-then-act window on a per-client key (the connstate client
 // index or the cloud runtime state): one thread read it, the other thread wrote it, then the first thread
 // deleted/overwrote it.
